@@ -202,7 +202,7 @@ def atom_phi(atom, env):
         for t, p, q in zip(args, flat_p, flat_q):
             r = env.new('pw')
             a = z_abs(z3, t)
-            env.defs += [r >= 0, _pow(r, int(q)) == _pow(a, int(p))]
+            env.defs += [r == a] if int(p) == int(q) else [r >= 0, _pow(r, int(q)) == _pow(a, int(p))]
             out.append(r)
         return out
     if kind == 'pnorm':
@@ -490,6 +490,9 @@ def direct_le(a, env):
         out = []
         for t, of, p, q in zip(args, offs, fp, fq):
             kq = z3.RealVal(str(a.k ** int(q)))
+            if int(p) == int(q):
+                out += [z3.RealVal(str(a.k)) * z_abs(z3, t) <= -of]
+                continue
             out += [of <= 0, kq * _pow(z_abs(z3, t), int(p)) <= _pow(-of, int(q))]
         return out
     if a.kind == 'pnorm' and a.k > 0 and a.params[1] == 1:
